@@ -55,9 +55,13 @@ if [ $BASE = 0 ] && [ $OWN = 0 ] && [ $WITH != 0 ]; then
   python3 - "$D" "$ID" "$TAG$N" "${CAUGHT# }" <<'PY'
 import json,sys,time
 d,pid,n,caught=sys.argv[1:5]
-meta={"property":pid,"seed":n,"breaks":pid,"needs":"see README.agent.md (written by the independent agent that produced the change)",
+import os
+tier=os.environ.get("SEEDCHECK_TIER","quick")
+try: meta=json.load(open(d+"/meta.json"))
+except Exception: meta={}
+meta.update({"property":pid,"seed":n,"breaks":pid,"needs":"see README.agent.md (written by the independent agent that produced the change)",
  "confirmed":{"applies_builds":True,"touched_packages_tests_pass":True,"demo_passes_without_change":True,"demo_fails_with_change":True},
- "ran":["seedcheck.sh %s %s"%(pid,n)],"caught_by_quick":caught.split() if caught else [],"checked_at":time.strftime("%Y-%m-%dT%H:%M:%SZ",time.gmtime())}
+ "ran":["seedcheck.sh %s %s"%(pid,n)],"caught_by_"+tier:caught.split() if caught else [],"checked_at":time.strftime("%Y-%m-%dT%H:%M:%SZ",time.gmtime())})
 json.dump(meta,open(d+"/meta.json","w"),indent=1)
 PY
 fi
